@@ -1792,8 +1792,10 @@ def _lincomb_impl(a, x1, b, x2, out):
 
     size = native(x1.size)
 
-    if size < THRESHOLD_SMALL:
-        # Faster for small arrays
+    if size < THRESHOLD_SMALL or not is_floating_dtype(out.dtype):
+        # Faster for small arrays. For non-floating data types, this is the
+        # only correct variant since the multi-pass implementations below
+        # would round (or fail to cast) intermediate results.
         if a == 0 and b == 0:
             # Zero assignment, must not depend on the operands (which may
             # be `out` itself with arbitrary contents)
